@@ -29,7 +29,7 @@ def tk(i, **kw):
     return d
 
 
-def gen_project(rng, p_after=0.35):
+def gen_project(rng, p_after=0.35, allow_gen=True):
     """producer(s) fed by a count file, consumers and generators over the same or other patterns."""
     tasks = []
     sources = [101, 102]
@@ -43,6 +43,8 @@ def gen_project(rng, p_after=0.35):
     tid = 3
     for _ in range(rng.randint(1, 3)):
         kind = rng.choice(["cons", "cons", "gen", "plain"])
+        if kind == "gen" and not allow_gen:
+            kind = "cons"
         if kind == "cons":
             nid += 1
             tasks.append(tk(tid, pdeps=[rng.choice(pats)], deps=[102] if rng.random() < 0.3 else [], prods=[nid]))
@@ -232,6 +234,59 @@ def o_c18(cimp, ctx):
                         probs.append((f"consumer {i} holds a product that does not reflect the files matching its pattern now ({matching})",
                                       ("F6",) if shrank else ()))
     return probs
+
+
+def o_announce(cimp, ctx):
+    """C10 on projects with directory patterns: every task the real build executes right after a dry run (nothing
+    edited in between) was announced as would-be-executed by the dry run. F29: a consumer of a pattern is not
+    announced when the file that changes is written by an ordinary task (plain path product inside the directory)."""
+    probs = []
+    if not ctx["prev"] or ctx["op"]["cfg"]["dry_run"] or cimp["exit"] not in (0, 1):
+        return probs
+    pop, pimp, _ = ctx["prev"][-1]
+    if not pop["cfg"]["dry_run"] or pimp["exit"] not in (0, 1):
+        return probs
+    # nothing between the two builds
+    ops = ctx["case"]["ops"]
+    bpos = [i for i, o in enumerate(ops) if o["op"] == "build"]
+    if bpos[ctx["bi"]] != bpos[ctx["bi"] - 1] + 1:
+        return probs
+    if pop["cfg"] != dict(ctx["op"]["cfg"], dry_run=True) or pop["tasks"] != ctx["op"]["tasks"]:
+        return probs
+    announced = {t for t, o in pimp["reports"] if o == O["WOULD_BE_EXECUTED"]}
+    tasks = {t["id"]: t for t in ctx["op"]["tasks"]}
+    for x in sorted(set(EO._started(cimp))):
+        if x in announced or x not in tasks:
+            continue
+        tx = tasks[x]
+        writers = [u for u in announced if u in tasks and any(10000 + 100 * p <= q < 10000 + 100 * p + 100 for p in tx["pdeps"] for q in tasks[u]["prods"])]
+        probs.append((f"task {x} was executed by the real build although the dry run right before it did not announce it", ("F29",) if writers else ()))
+    return probs
+
+
+def gen_dry_history(rng, idx, base):
+    """no generators; every edit is followed by a dry run and then the real build"""
+    tasks, sources = gen_project(rng, allow_gen=False)
+    ops = [{"op": "set", "n": 101, "c": rng.randint(1, 40)}, {"op": "set", "n": 102, "c": rng.randint(1, 40)}]
+    if any(9 in t["pdeps"] for t in tasks):
+        for j in range(rng.randint(1, 3)):
+            ops.append({"op": "set", "n": 10900 + j, "c": rng.randint(1, 99)})
+    def b(**kw):
+        return {"op": "build", "tasks": [dict(t) for t in tasks], "cfg": dict(PLAIN, **kw), "faults": {}}
+    ops.append(b())
+    for _ in range(rng.randint(1, 3)):
+        k = rng.random()
+        if k < 0.6:
+            ops.append({"op": "set", "n": rng.choice([101, 102]), "c": rng.randint(1, 40)})
+        elif k < 0.8 and any(9 in t["pdeps"] for t in tasks):
+            ops.append({"op": "set", "n": 10900 + rng.randint(0, 3), "c": rng.randint(1, 99)})
+        else:
+            prods = [p for t in tasks for p in t["prods"] if p < 10000]
+            if prods:
+                ops.append({"op": "del", "n": rng.choice(prods)})
+        force = rng.random() < 0.15
+        ops += [b(dry_run=True, force=force), b(force=force)]
+    return {"idx": idx, "root": str(Path(base) / f"c{idx}" / "p"), "ops": ops, "sources": sources}
 
 
 def run_id_scenarios(out, rng, n):
